@@ -811,21 +811,29 @@ func doMapUpdate(mv, k, v value) {
 	if m == nil {
 		panic(rtp("assignment to entry in nil map"))
 	}
-	if isSym(k) {
-		panic(unsupported{"symbolic map key in update"})
-	}
 	if t, isTab := k.(*tab); isTab {
 		k = concretize(t)
 	}
+	if u, isU := k.(*union); isU {
+		k = splitUnion(u)
+	}
 	noteMapWrite(m)
 	for i, kk := range m.keys {
-		if eqConc(kk, k) {
+		if keyEq(kk, k) {
 			m.vals[i] = copyVal(v)
 			return
 		}
 	}
 	m.keys = append(m.keys, k)
 	m.vals = append(m.vals, copyVal(v))
+}
+
+// key equality for map updates; symbolic strings are resolved by forking
+func keyEq(a, b value) bool {
+	if isSym(a) || isSym(b) {
+		return branch(strEq(a, b))
+	}
+	return eqConc(a, b)
 }
 
 func doLookup(x *ssa.Lookup, m, k value) value {
